@@ -80,6 +80,11 @@ C = {
    "evaluator (own symlink walker, regular-file test, last match wins, default deny) decides per request which files may and must be served; any other file's content in the session is a violation. "
    "Configuration-dominated: the simulator contributes concurrent users and real sessions.",
    "deterministic simulation executing generated configurations x layouts x requests as concurrent sessions; independent permission evaluator"),
+ "C18": ("exploration", "5 C18",
+   "Seeded generation of server lists and files (duplicates, host:port forms, up to thousands of entries) with the client started at clock offsets over 10^6 simulated seconds "
+   "(the shuffle is clock seeded); the contacts are observed as dials on the simulated network and must be exactly one per distinct entry. Thin use of the simulator (clock + network "
+   "observation); the /regex/ filter is unreachable together with a list in this tree and not covered.",
+   "deterministic simulation: simulated clock epoch + dial recording on the simulated network, set-equality oracle"),
 }
 
 checks = []
